@@ -215,6 +215,28 @@ let () =
                    | TErr fs -> print_endline ("ERRORS" ^ String.concat "" (List.map (fun f -> " " ^ file_text2 f) fs))
                    | TOutOfFuel -> print_endline "OUTOFFUEL")
               | _ -> print_endline "BADCASE")
+         | "respell" ->
+             (* line as for `modules`, the file map keyed by BARE paths: the check of C12_tree_prefix for the four
+                spellings of the project directory -> RESPELL tttt *)
+             (match String.split_on_char '\t' line with
+              | main :: _ :: files ->
+                  let fm = List.map (fun f ->
+                    let k = String.index f '=' in
+                    let path = String.sub f 0 k in
+                    let rest = String.sub f (k + 1) (String.length f - k - 1) in
+                    let (kind, uses) = (match String.index_opt rest ':' with
+                      | Some j -> (String.sub rest 0 j,
+                                   List.filter (fun u -> u <> "") (String.split_on_char ',' (String.sub rest (j + 1) (String.length rest - j - 1))))
+                      | None -> (rest, [])) in
+                    (rr_chars path,
+                     (match kind with
+                      | "conflict" -> FConflict
+                      | "bad" -> FSource (false, List.map rr_chars uses)
+                      | _ -> FSource (true, List.map rr_chars uses)))) files in
+                  let libs = List.map fst gen_std_uses in
+                  print_endline ("RESPELL " ^ String.concat "" (List.map (fun p ->
+                    if respell_okb libs (rr_chars p) fm (rr_chars main) then "t" else "f") ["/p/"; ""; "./"; "proj/"]))
+              | _ -> print_endline "BADCASE")
          | "usepath" ->
              (* line = root TAB cur(file:..|lib:..) TAB path *)
              (match String.split_on_char '\t' line with
